@@ -19,7 +19,7 @@ pub fn property() -> Property {
             Part {
                 name: "output",
                 quick: 50_000,
-                thorough: 1_000_000,
+                thorough: 5_000_000,
                 single_shard: false, supplementary: false,
                 run: |cfg| run_part(cfg, san_positions(), |r| PosCase { fen: gen::position(r, ClockDomain::Keep).fen() }, check_output),
                 replay: |v| replay_case::<PosCase, _>(v, check_output),
@@ -27,7 +27,7 @@ pub fn property() -> Property {
             Part {
                 name: "parser",
                 quick: 25_000,
-                thorough: 500_000,
+                thorough: 2_500_000,
                 single_shard: false, supplementary: false,
                 run: |cfg| run_part(cfg, (san_positions(), proptest::collection::vec((any::<u16>(), any::<u16>()), 1..12)), |(r, v)| ParserCase { fen: gen::position(r, ClockDomain::Keep).fen(), picks: v.clone() }, check_parser),
                 replay: |v| replay_case::<ParserCase, _>(v, check_parser),
@@ -226,8 +226,15 @@ pub fn check_parser(c: &ParserCase, ctx: &mut Ctx) -> Result<(), String> {
     if legal.is_empty() {
         return Ok(());
     }
+    // pseudo-legal moves that are not legal (pinned piece, king left in check, e.p. with a pinned capturer): SAN naming
+    // only such a move must be rejected
+    let illegal: Vec<Mv> = p.pseudo_moves().into_iter().filter(|m| !legal.contains(m)).collect();
     for &(x, y) in &c.picks {
-        let m = legal[gen::pick(x as u32, 16, legal.len())];
+        let from_illegal = !illegal.is_empty() && y % 5 == 4;
+        let m = if from_illegal { illegal[gen::pick(x as u32, 16, illegal.len())] } else { legal[gen::pick(x as u32, 16, legal.len())] };
+        if from_illegal {
+            ctx.class("text_derived_from_an_illegal_pseudo_legal_move");
+        }
         let mut s = spec_of(&p, m);
         if s.castle.is_none() {
             // vary the amount of disambiguation and the other marks
